@@ -49,6 +49,9 @@ PROFILES += [
     S.profile(min_tasks=2, max_tasks=3, horizon=(3, 6), p_no_horizon=5, p_resources=100, n_workers=(1, 1), p_select=0, p_cumulative=10, task_kinds=("var",) * 4 + ("fixed",),
               task_constraints=(0, 1), optional_rules=(0, 0), resource_constraints=(1, 1), focus=["ResourceInterrupted", "ResourcePeriodicallyInterrupted"], p_optional=15, p_work_amount=5,
               p_dynamic=0, p_delay=10, exclude=("SameWorkers", "DistinctWorkers", "ResourceNonDelay", "ResourceTasksDistance")),
+    # two selections that both list the cumulative worker, under Same/DistinctWorkers
+    S.profile(min_tasks=2, max_tasks=3, horizon=(2, 5), p_no_horizon=5, p_resources=100, n_workers=(2, 3), p_select=100, p_cumulative=100, p_cumulative_in_select=75, task_constraints=(0, 1),
+              optional_rules=(0, 0), resource_constraints=(1, 1), focus=["SameWorkers", "DistinctWorkers"], p_optional=10, p_work_amount=5),
     # a task group as operand of a TaskPrecedence
     S.profile(min_tasks=2, max_tasks=3, horizon=(3, 6), p_no_horizon=5, p_resources=20, task_constraints=(0, 1), optional_rules=(0, 0), resource_constraints=(0, 0), p_optional=30,
               p_group_precedence=100, p_work_amount=5),
